@@ -445,6 +445,122 @@ def _clones(ctx, counts) -> RuleResult:
     return r
 
 
+def r11_6(ctx, counts) -> RuleResult:
+    """timedelta components are not sign-magnitude digits"""
+    model: Model = ctx.model
+    res = RuleResult(
+        'R11.6', 'TIMEDELTA-PARTS-SUMMED',
+        'datetime.timedelta is normalised with 0 <= seconds < 86400 and 0 <= microseconds < 10^6; '
+        'only `days` carries the sign (-0.5 s is days=-1, seconds=86399, microseconds=500000). '
+        'The value in seconds is therefore the SUM days*86400 + seconds + microseconds/10^6. '
+        'Wherever the datatypes build a number of seconds from the parts of a timedelta, the '
+        'microseconds enter arithmetically (a `+` with a division by 10^6, or total_seconds()), '
+        'never as the digits after a decimal point of a formatted string ("{}.{:06}"): the '
+        'concatenation is the sum only for non-negative values (the difference -0.5 s was '
+        'reported as -1.5 s).')
+    n = 0
+    for f in sorted(model.all_functions(), key=lambda q: q.key):
+        if not f.module.name.startswith(('elementpath.datatypes', 'elementpath.helpers')):
+            continue
+        for x in walk_local(f.node):
+            args: list[ast.expr] = []
+            fmt: Optional[str] = None
+            if isinstance(x, ast.Call) and isinstance(x.func, ast.Attribute) \
+                    and x.func.attr == 'format' and isinstance(x.func.value, ast.Constant) \
+                    and isinstance(x.func.value.value, str):
+                fmt, args = x.func.value.value, list(x.args)
+            elif isinstance(x, ast.BinOp) and isinstance(x.op, ast.Mod) \
+                    and isinstance(x.left, ast.Constant) and isinstance(x.left.value, str):
+                fmt = x.left.value
+                args = list(x.right.elts) if isinstance(x.right, ast.Tuple) else [x.right]
+            elif isinstance(x, ast.JoinedStr):
+                fmt = ''.join(v.value if isinstance(v, ast.Constant) else '{}' for v in x.values)
+                args = [v.value for v in x.values if isinstance(v, ast.FormattedValue)]
+            if fmt is None or not args:
+                continue
+            micro = [a for a in args if any(isinstance(y, ast.Attribute) and y.attr == 'microseconds'
+                                            for y in ast.walk(a))]
+            whole = [a for a in args if any(isinstance(y, ast.Attribute) and y.attr in ('days', 'seconds')
+                                            for y in ast.walk(a))]
+            if not micro:
+                continue
+            n += 1
+            joined = bool(whole) and re.search(r'[}sd]\.[{%]', fmt) is not None
+            res.instances.append(f'{f.key}: `{stmt_text(x)[:60]}` joins the whole and the fractional '
+                                 f'part of a timedelta as text={joined}')
+            if not joined:
+                res.ok()
+            else:
+                res.fail(finding('R11.6', f, x, 'timedelta parts joined as digits',
+                                 f'`{stmt_text(x)[:70]}` writes days/seconds and microseconds of a '
+                                 f'timedelta on the two sides of a decimal point: for a negative '
+                                 f'timedelta the parts have different signs (-0.5 s = -1 s + '
+                                 f'500000 µs gives "-1.500000")'))
+        for x in walk_local(f.node):
+            if isinstance(x, ast.Attribute) and x.attr == 'microseconds' and \
+                    f.name in ('fromtimedelta',):
+                n += 1
+                res.instances.append(f'{f.key}: reads .microseconds of the timedelta')
+                res.ok()
+                break
+    counts['timedelta_fraction_sites'] = n
+    if n < 1:
+        raise AnalysisError('no use of timedelta.microseconds located in the datatypes')
+    return res
+
+
+def r11_7(ctx, counts) -> RuleResult:
+    """values are ordered as instants: no decision on the year field alone"""
+    from ..engine.cfg import CFG
+    from ..engine.dataflow import branch_facts
+    model: Model = ctx.model
+    res = RuleResult(
+        'R11.7', 'YEAR-SHORTCUT-GUARDED',
+        'Date/time values are ordered as instants on the timeline. Two values whose year fields '
+        'differ can be the same instant, or be ordered the other way round, when their timezones '
+        'differ (2000-01-01T00:00:00+05:00 is 1999-12-31T19:00:00Z). In AbstractDateTime._compare '
+        'a `return op(<year>, <year>)` — a verdict taken from the year fields alone — is '
+        'therefore reachable only under a branch fact that restricts it to years the datetime '
+        'module cannot represent (a test against the 1..9999 range); inside that range the '
+        'comparison must be done on the timezone-aware datetime values.')
+    cls = model.find_class('AbstractDateTime')
+    f = cls.methods.get('_compare')
+    if f is None:
+        raise AnalysisError('AbstractDateTime._compare vanished')
+    cfg = CFG(f.node)
+    facts = branch_facts(cfg)
+    n = 0
+    for nd in cfg.nodes:
+        a = nd.ast
+        if nd.kind != 'stmt' or not isinstance(a, ast.Return) or not isinstance(a.value, ast.Call):
+            continue
+        c = a.value
+        if len(c.args) != 2 or not all('year' in stmt_text(x) and 'dt' not in stmt_text(x).lower()
+                                       for x in c.args):
+            continue
+        n += 1
+        guarded = any('9999' in fa or 'MAXYEAR' in fa or 'MINYEAR' in fa for fa in facts[nd.id])
+        res.instances.append(f'{f.key}: `{stmt_text(a)}` restricted to out-of-range years='
+                             f'{guarded}')
+        if guarded:
+            res.ok()
+        else:
+            res.fail(finding('R11.7', f, a, 'verdict from the year fields',
+                             f'`{stmt_text(a)}` decides the comparison from the year fields '
+                             f'whenever they differ (facts: {sorted(facts[nd.id])[:3]}): with '
+                             f'different timezones 2000-01-01T00:00:00+05:00 eq '
+                             f'1999-12-31T19:00:00Z is false although both are the same instant'))
+    dt_cmp = [x for x in walk_local(f.node) if isinstance(x, ast.Call) and len(x.args) == 2
+              and '_dt' in stmt_text(x.args[0])]
+    res.instances.append(f'{f.key}: {len(dt_cmp)} comparison(s) on the datetime values')
+    if dt_cmp:
+        res.ok()
+    else:
+        raise AnalysisError(f'{f.key}: no comparison of the datetime values located')
+    counts['year_shortcuts'] = n
+    return res
+
+
 def run(ctx) -> dict:
     counts: dict[str, int] = {}
     # process-wide state is written only by the reviewed inventory (no new caches)
@@ -452,7 +568,7 @@ def run(ctx) -> dict:
     _state = _r19_5(ctx, counts, lambda f: f.module.name.startswith(('elementpath.datatypes', 'elementpath.helpers')), 1)
     return {
         'results': [r11_1(ctx, counts), r11_2(ctx, counts), r11_3(ctx, counts), _clones(ctx, counts),
-                    r11_5(ctx, counts), _state],
+                    r11_5(ctx, counts), r11_6(ctx, counts), r11_7(ctx, counts), _state],
         'counts': counts,
         'explanation':
             'Only the last sentence of C11 is decided ("the component-extraction functions '
